@@ -89,7 +89,7 @@ def write_cfg(ctx, name, text):
 
 def laws_job(ctx):
     return {"files": ["num/Bignum.tla", "num/BignumLaws.tla", "num/BignumLaws.cfg"], "module": "BignumLaws",
-            "cfg": "BignumLaws.cfg", "tag": "laws", "timeout": 600}
+            "cfg": "BignumLaws.cfg", "tag": "laws", "timeout": 1500}
 
 
 def check_laws(res):
@@ -105,7 +105,7 @@ def table_jobs(ctx, prop):
             cfg = write_cfg(ctx, "Table8_%s_%s.cfg" % (t, op),
                             'SPECIFICATION Spec\nCONSTANTS TName = "%s"\n Op = "%s"\n Cross = "%s"\nINVARIANT RowOK\n' % (t, op, "some" if ctx.quick else "all"))
             jobs.append({"files": BASE + ["num/Table8.tla", cfg], "module": "Table8", "cfg": os.path.basename(cfg),
-                         "tag": "t8-%s-%s" % (t, op), "timeout": 900, "t": t, "op": op})
+                         "tag": "t8-%s-%s" % (t, op), "timeout": 1500, "t": t, "op": op})
     return jobs
 
 
